@@ -459,9 +459,12 @@ func (s *Scheme) Sign(c context.Context, msgHash []byte, topic string) ([]byte, 
 	ctx, cancel := context.WithCancel(c)
 	defer cancel()
 
+	preSigningTopic := hash(topicHash)
+
 	cleanup := func() {
 		s.lock.Lock()
 		delete(s.syncsInProgress, string(topicHash))
+		delete(s.syncsInProgress, string(preSigningTopic))
 		delete(s.messageClassifiers, string(topicHash))
 		delete(s.rbcInProgress, string(topicHash))
 		s.lock.Unlock()
@@ -547,6 +550,10 @@ func (s *Scheme) Sign(c context.Context, msgHash []byte, topic string) ([]byte, 
 	if err != nil {
 		return nil, err
 	}
+
+	// Whatever way this session ends (signature, error, timeout), it must not leave its handlers behind:
+	// a later Sign on the same topic would be refused, and late traffic would still reach this instance.
+	defer cleanup()
 
 	go func() {
 		if err := sync.Synchronize(ctx, initializeSigningInstance, topicHash, s.Threshold+1, SyncInterval); err != nil {
